@@ -2189,12 +2189,13 @@ class Node(_protocols.NodeProtocol, _display.PrettyPrintable):
         self._metadata: _metadata.MetadataStore | None = None
         self._metadata_props: dict[str, str] | None = metadata_props
         self.device_configurations: tuple[NodeDeviceConfiguration, ...] = device_configurations
+        self.doc_string = doc_string
         # _graph is set by graph.append
         self._graph: Graph | None = None
-        # Add the node to the graph if graph is specified
+        # Add the node to the graph if graph is specified. Do this after every attribute
+        # is set so that the graph (and anything observing it) sees a complete node.
         if graph is not None:
             graph.append(self)
-        self.doc_string = doc_string
 
         # Add the node as a use of the inputs
         for i, input_value in enumerate(self._inputs):
